@@ -14,7 +14,7 @@ from . import c01, c02, c03
 ID = "C09"
 LEVEL = "proof"
 PROP_FILE = "Properties/C09.v"
-PROOF_FILES = ["Proofs/MetaProofs.v", "Proofs/ThlFinal.v", "Proofs/ThlProofs.v", "Proofs/DpProofs.v", "Proofs/ReconProofs.v", "Proofs/PathFacts.v",
+PROOF_FILES = ["Proofs/Meta2Proofs.v", "Proofs/SpfsFinal.v", "Proofs/UspfsFinal.v", "Proofs/MetaProofs.v", "Proofs/ThlFinal.v", "Proofs/ThlProofs.v", "Proofs/DpProofs.v", "Proofs/ReconProofs.v", "Proofs/PathFacts.v",
                "Model/Thl.v", "Model/Recon.v"]
 TRUSTED = c01.TRUSTED
 ASSUMES = ["binary trees", "coherent cost vectors before and after the change", "node names do not occur in the model: renaming nodes is the encoding step of the harness"]
@@ -273,14 +273,17 @@ def replay_known(ctx, kf):
     return False, "not a C09 witness"
 
 
-OPEN_GOALS = ["opt_outgroup_cost / opt_outgroup_set (adding an outgroup keeps the optimum; the optimal set when floss > 0)",
-              "the metamorphic laws for the labelled optima (ordered / unordered)", "opt_rename_families"]
-TECHNIQUE = "Coq proofs of the metamorphic laws on the specification optimum (cost-preserving bijections, linearity, monotonicity) transferred to the solver through C01; metamorphic pairs also run on the implementation, reruns in fresh processes"
-LEVEL_TEXT = ("Machine-checked on the specification optimum of plain reconciliation (and so, through the C01 theorems, for reconcile_thl/exh inside the coherent region): scaling all unit costs by k>0 scales every cost and keeps "
-              "the optimal set; raising unit costs never lowers the cost of a valid reconciliation nor the minimum; reordering the children of object-tree nodes and of species-tree nodes are cost-preserving "
-              "bijections on valid reconciliations. The outgroup law, the labelled versions and run-to-run determinism are not theorems: they are exercised on the implementation (metamorphic twins, "
-              "fresh processes with other hash seeds) and the model agrees with the implementation on inputs up to 10 object leaves.")
-LEVEL_NOTE = "Partial: determinism, the outgroup law and the labelled solvers rest on the metamorphic sample. Known finding F-OUTGROUP-TIES (floss = 0) is replayed. Trusted: Coq kernel, models, correspondence."
+OPEN_GOALS = ["run-to-run determinism of the IMPLEMENTATION (iteration order of Python sets under different hash seeds) is not a statement about the "
+              "pure Gallina models; it is exercised by reruns in fresh processes with other hash seeds, compared as sets"]
+TECHNIQUE = ("Coq proofs of the metamorphic laws on the specification optima of the three models (cost-preserving bijections for child reordering in both trees and family renaming, "
+             "linearity, monotonicity, push-down of the root for the outgroup) transferred to the solver models through the exactness theorems of C01/C02/C03; metamorphic pairs also run on the implementation, reruns in fresh processes")
+LEVEL_TEXT = ("Machine-checked for plain, ordered and unordered (canonical and all-labellings) optima, and through the exactness theorems for reconcile_thl / SPFS / USPFS inside the coherent region: "
+              "scaling all unit costs by k>0 scales every cost and keeps the optimal set; raising unit costs never lowers the cost of a valid solution nor the minimum; reordering the children of object-tree "
+              "nodes and of species-tree nodes and renaming the gene families by any bijection are cost-preserving bijections on the optimal sets; adding an outgroup species keeps the minimum (coherent region) "
+              "and, when full losses cost something and transfers are finite, the optimal set exactly (the image under the path shift); with floss = 0 the set may grow (kernel-checked counter-example = known finding "
+              "F-OUTGROUP-TIES). Run-to-run determinism of the implementation is not a theorem: it is exercised on the implementation (fresh processes with other hash seeds); "
+              "the models agree with the implementation on inputs up to 10 object leaves and the metamorphic twins are also run on the implementation.")
+LEVEL_NOTE = "Determinism under hash seeds rests on the rerun sample only. Known finding F-OUTGROUP-TIES (floss = 0) is replayed. Trusted: Coq kernel, models, correspondence. No axioms."
 
 
 def search(ctx):
